@@ -13,7 +13,7 @@ NAMESPACE = 'Props.C13'
 LEAN_CONE = ['PncModel.Words', 'PncModel.Camx.Uamiv', 'PncModel.Camx.Slab', 'PncModel.Camx.SlabRead', 'PncModel.Camx.UamivRead', 'PncModel.Camx.WindRecRead', 'PncProofs.WordsLemmas', 'PncProofs.SlabLemmas', 'PncProofs.SlabReadLemmas',
              'PncProofs.BridgeLemmas', 'PncProofs.UamivReadLemmas', 'PncProofs.UamivReadEncode', 'PncProofs.WindLemmas', 'PncProofs.WindRecLemmas', 'PncProofs.WindRecThm', 'PncProofs.C13']
 LEMMA_FILES = ['PncProofs/SlabLemmas.lean', 'PncProofs/BridgeLemmas.lean', 'PncProofs/SlabReadLemmas.lean', 'PncProofs/UamivReadLemmas.lean', 'PncProofs/UamivReadEncode.lean', 'PncProofs/WindRecLemmas.lean', 'PncProofs/WindRecThm.lean']
-REQUIRED_THEOREMS = ['chunk_records', 'leading_eq', 'mm_decode_encode', 'single_step_rejected', 'read_decode_encode', 'readers_agree', 'read_temp_decode_encode', 'readers_agree_temperature', 'uamiv_readers_agree_words', 'uamiv_read_encode', 'exUamiv_oneDay', 'wind_readers_agree', 'exWind_reg']
+REQUIRED_THEOREMS = ['chunk_records', 'leading_eq', 'mm_decode_encode', 'single_step_rejected', 'read_decode_encode', 'readers_agree', 'read_temp_decode_encode', 'readers_agree_temperature', 'uamiv_readers_agree_words', 'uamiv_read_encode', 'exUamiv_oneDay', 'wind_readers_agree', 'wind_readers_agree_one', 'exWind_reg']
 RULE = ('wind files (both time-header variants, 1-9 time steps) and files of the formats that have both reader families and a uniform layout (one3d, humidity, vertical '
         'diffusivity, temperature, height/pressure: 2-4 steps, 1-3 layers, 1-4 rows and columns, hour steps of 1 or 3 '
         'incl. midnight and year-end starts, also 6, 12 and 24 hour steps over up to 6 steps (several midnights), readers called with and without rows/columns, any float32 payload; gridded average files in the domain of the record '
